@@ -41,7 +41,8 @@ POSITIONS = {
     'verb': ('raw', ['x \\verb|', 'LEAF', '| y']),
     'caption': ('text', ['\\begin{figure}\\caption{', 'LEAF', '}\\end{figure}']),
 }
-STRINGS = ['&lt;', '&amp;', '&#65;', '&copy;', '<b>x</b>', '</p>', '<script>alert(1)</script>', '<!-- c -->']
+STRINGS = ['&lt;', '&amp;', '&#65;', '&copy;', '<b>x</b>', '</p>', '<script>alert(1)</script>', '<!-- c -->',
+           '&x-width;', '&lt-height;', 'a&b-depth;&em;c']         # text that looks like the renderer's own image-size placeholders
 
 
 def reset():
